@@ -2,3 +2,5 @@ From Coq Require Import List ZArith Bool.
 From Verif Require Import Model.Inputs Corr.Common.
 Import ListNotations.
 Definition acc_agree (c : list Z * bool) : bool := Bool.eqb (inputs_accepted Z Z.eqb (fst c)) (snd c).
+(* config.load's acceptance of the masters' source sets: (file names per master as numbers, accepted?) *)
+Definition mst_agree (c : list (list Z) * bool) : bool := Bool.eqb (masters_accepted Z Z.eqb (fst c)) (snd c).
